@@ -25,7 +25,7 @@ class C11(Prop):
     thorough_runs = 50000
 
     def families(self, tier):
-        return [("history", 8), ("silent-streak", 1)]
+        return [("history", 8), ("silent-streak", 1), ("two-engines", 2)]
 
     def expected_counters(self, tier):
         return ["probe.encrypted-checked", "probe.des", "probe.aes", "probe.padding-nonzero-length", "probe.encrypted-after-timeout", "probe.encrypted-after-receive", "probe.reply-decrypted-value-checked", "probe.streak-over-80", "probe.after-discovery"]
@@ -36,6 +36,8 @@ class C11(Prop):
             for s in p["sessions"]:
                 s["timeout_ns"] = 10_000_000
             return p
+        if family == "two-engines":
+            return v3common.two_engine_plan(rng, tier, PRIV_LEVELS)
         return v3common.history_plan(rng, tier, PRIV_LEVELS)
 
     def check(self, run):
